@@ -217,6 +217,11 @@ func (p *Pipe) ModelOps() int {
 
 func (p *Pipe) enter(w bool, data []byte) (idx int, fail bool) {
 	p.mu.Lock()
+	if len(p.ops) >= maxEvents {
+		// a spinning call: keep failing its operations without logging them
+		p.mu.Unlock()
+		return -1, true
+	}
 	idx = len(p.ops)
 	m := p.curMod
 	if m < 0 {
@@ -259,6 +264,9 @@ func (p *Pipe) enter(w bool, data []byte) (idx int, fail bool) {
 }
 
 func (p *Pipe) markFailed(idx int, blocked bool) {
+	if idx < 0 {
+		return
+	}
 	p.ops[idx].Failed = true
 	p.ops[idx].Blocked = blocked
 	if p.ops[idx].ti >= 0 {
